@@ -37,6 +37,8 @@ def obligations(tier):
         v("Value::generation", "generation of a value is the generation of the heap object it points to; scalars: root", "vm/src/value.rs::Value::generation"),
         v("Cloner::force_full_clone", "afterwards the share policy generation is below every real generation", "vm/src/value.rs::Cloner::force_full_clone"),
         v("Cloner::deep_clone_inner", "a pointer is returned uncopied only if receiver_generation can contain its generation; otherwise the result is a new object of the receiving heap; scalars by value; policy unchanged", "vm/src/value.rs::Cloner::deep_clone_inner"),
+        dict(engine="verus", unit="reference", function="Reference::deep_clone", name="C13/reference/Reference_deep_clone", source="vm/src/reference.rs::<Reference as Userdata>::deep_clone",
+             clause="a reference crossing heaps becomes a reference owned by the RECEIVING thread holding a copy of the content"),
         v("lemma_full_clone_copies_everything", "after force_full_clone no value of a real heap is ever shared (over the two contracts)", "lemma"),
     ]
 
